@@ -132,6 +132,11 @@ func VerifScan(c *Channel, t int64) (bool, bool) {
 	return c.processInFlightQueue(t), c.processDeferredQueue(t)
 }
 
+// VerifScanInFlight runs the in-flight half of that pass only (one critical section under the channel's exitMutex).
+func VerifScanInFlight(c *Channel, t int64) bool {
+	return c.processInFlightQueue(t)
+}
+
 // VerifChannelSnapshot returns the sizes of the channel's structures:
 // in-flight map, in-flight heap, deferred map, deferred heap, memory queue.
 func VerifChannelSnapshot(c *Channel) (int, int, int, int, int) {
